@@ -131,6 +131,9 @@ def compare(ws, sch, rec, item, emit):
         hmap = {}
         for n in names:
             hmap[n.upper() if kind == "complete" and len(names) % 2 else n] = recorder(n)
+        if kind == "extra":
+            hmap["zcv-surplus"] = recorder("zcv-surplus")
+            hmap["ZCV-None"] = None
         if kind == "missing":
             del hmap[nm]
         elif kind == "none":
@@ -201,7 +204,7 @@ def run(chk):
                 docs.append(d)
     chk.rule = ("5 base schemas (derived types among them; nesting depth 3, multisections, abstract slots, wrapping section datatypes, a case-sensitive key type) x %d random "
                 "placements of handler attributes on subsets of all items and the schema x %d random texts, 30%% of them with 1..2 command-line overrides, a quarter of the others cut into 1..3 included resources (conforming "
-                "generator; rejected ones count as trivial) x handler maps {complete (with upper-cased names), each name "
+                "generator; rejected ones count as trivial) x handler maps {complete (with upper-cased names), complete with two surplus names, each name "
                 "missing, each name mapped to None, each name duplicated in another case, each name supplied only in two non-normalised spellings}; non-trivial = accepted text with "
                 "at least one handler entry" % (nvar, ntext))
     sc = scenario.Scenarios(docs)
